@@ -136,7 +136,8 @@ class Impl(object):
         k = op[0]
         ids = [x for x in (op[1:] if k not in (CELEM, CTEXT, INSERT, POP, SETITEM, EXTLIST, SETATTR) else
                            [op[1]] + ([op[3]] if k in (INSERT, SETITEM, SETATTR) else []) + (op[2] if k == EXTLIST else []))]
-        if any(not (0 <= x < len(n)) for x in ids) or (k > CFRAG and k != CLONE and n[op[1]].nodeType == 3):
+        if any(not (0 <= x < len(n)) for x in ids) or (k > CFRAG and k != CLONE and n[op[1]].nodeType == 3) or \
+                (k == EXTEND and n[op[2]].nodeType == 3):       # extend(text node) walks the characters of a str
             return [-1]          # dangling identity / Text receiver: outside the Model (only shrinking produces these)
         try:
             if k == CDOC:
@@ -1050,6 +1051,9 @@ HAND = [
     ('stale parentNode of a removed node leads back into its own tree',
      [[APPEND, 5, 6], [REMOVE, 5, 6], [APPEND, 6, 5], [APPEND, 5, 9], [APPEND, 5, 10], [APPEND, 5, 11]], [[3, 9, 11]]),
     ('deep order', [[APPEND, 2, 5], [APPEND, 5, 9], [APPEND, 5, 6], [APPEND, 5, 10], [APPEND, 3, 11]]),
+    ('a fragment with a Document among its items put into itself: the endless walk ends with the AttributeError of the document',
+     [[APPEND, 7, 5], [APPEND, 7, 0], [APPEND, 7, 7], [EXTEND, 7, 7], [INSERT, 7, 2, 7], [INSERT, 7, 0, 7]]),
+     ('... with the document first', [[APPEND, 8, 0], [INSERT, 8, 0, 8], [SETITEM, 8, 0, 8], [SETITEM, 8, -1, 8], [APPEND, 8, 8]]),
     ('normalize reaches a fragment held in an attribute of an element that never had a child list',
      [[APPEND, 7, 9], [APPEND, 7, 10], [SETATTR, 5, 0, 7], [NORMALIZE, 5]]),
     ('... and from an ancestor, through a holder whose children were removed again, nested',
